@@ -1,4 +1,4 @@
-import IoraModel.Lemmas.AssetsHistory
+import IoraModel.Lemmas.AssetsWc
 /-!
 C20: `Assets::fromDirectory` produces canonical absolute roots (`RootOK`), so the history theorem applies to every instance
 the constructor returns.
